@@ -316,3 +316,27 @@ func mCellNamed(name string) VMatch {
 		return al != nil && al.Comment == name
 	}
 }
+
+// mShortCircuitAnd: v is the SSA form of `lhs && rhs`: a phi with one constant-false edge coming
+// from the block that branches on lhs, and one edge carrying rhs.
+func mShortCircuitAnd(lhs, rhs VMatch) VMatch {
+	return func(v ssa.Value) bool {
+		ph, ok := stripConv(v).(*ssa.Phi)
+		if !ok || len(ph.Edges) != 2 {
+			return false
+		}
+		blk := ph.Block()
+		okL, okR := false, false
+		for i, e := range ph.Edges {
+			pred := blk.Preds[i]
+			if bv, isC := constBool(e); isC && !bv {
+				if cond, neg, ok := ifCond(pred); ok && !neg && lhs(cond) {
+					okL = true
+				}
+			} else if rhs(e) {
+				okR = true
+			}
+		}
+		return okL && okR
+	}
+}
